@@ -204,59 +204,79 @@ def r4_output_construction(ctx):
 
 
 def r5_effects(ctx):
-    r = ctx.rule("R5", "create_next_state: every transaction; every output index looked up in relevant_coins and inserted; every input removed; transaction recorded")
+    r = ctx.rule("R5", "create_next_state: every output of every transaction (when relevant) is inserted, every input of every transaction removed, every transaction recorded; Ok only after all batch loops finished")
     b = ctx.body(AP + "create_next_state", r)
     loops = q.loop_with_source(b, lambda s: True)
-    outer = [l for l in loops if sig(l[3]) == "$2"]
-    r.check(len(outer) == 1, "loop/all-txs", "loops over all transactions", "outer loop sources: %s" % [sig(l[3]) for l in loops])
-    if not outer:
+    outers = [l for l in loops if sig(l[3]) == "$2"]
+    r.check(len(outers) >= 1, "loop/all-txs", "loops over all transactions", "no loop over the whole batch: %s" % [sig(l[3]) for l in loops])
+    others = [l for l in loops if sig(l[3]) != "$2" and not any(l[0] in o[1] for o in outers)]
+    r.check(not others, "loop/partial", "every loop is (inside) a loop over the whole batch", "loops over %s are not over the whole batch" % [sig(l[3]) for l in others])
+    if not outers:
         return
-    h, blocks, latches, src = outer[0]
     EL = "elem($2)"
+    oks = [bb for bb, e in q.result_blocks(b)["Ok"]]
     for l in loops:
-        exits = [(x, s) for x in l[1] for s in b.succs(x) if s not in l[1]]
-        early = [x for (x, s) in exits if not (x in b.succs(l[0]) or x == l[0])]
-        # early exits must lead to Err only
-        oks = [bb for bb, e in q.result_blocks(b)["Ok"]]
-        bad = [x for x in early if any(o in b.reachable(x, removed=[l[0]]) for o in oks) and x not in b.succs(l[0])]
+        exits = [(x, s_) for x in l[1] for s_ in b.succs(x) if s_ not in l[1]]
+        early = [x for (x, s_) in exits if not (x in b.succs(l[0]) or x == l[0])]
+        bad = [x for x in early if any(o in b.reachable(x, removed=[l[0]]) for o in oks)]
         r.check(not bad, "no-break@" + sig(l[3])[:30], "no early exit towards Ok", "early exit from bb%s can reach Ok" % bad, b.where(l[0]))
-    oi = [l for l in loops if sig(l[3]) == "Iterator::enumerate(%s.outputs)" % EL]
-    ii = [l for l in loops if sig(l[3]) == "%s.inputs" % EL]
-    r.check(len(oi) == 1, "outputs/loop", "loops over every output index", "output loops: %s" % [sig(l[3]) for l in loops])
-    r.check(len(ii) == 1, "inputs/loop", "loops over every input", "input loops: %s" % [sig(l[3]) for l in loops])
+    # Ok only after every batch loop is exhausted
+    for i, o in enumerate(outers):
+        h = o[0]
+        exits = [(x, s_) for x in o[1] for s_ in b.succs(x) if s_ not in o[1]]
+        exhaust = [(x, s_) for (x, s_) in exits if x in b.succs(h) or x == h]
+        reach = b.reachable(0, removed_edges=exhaust)
+        r.check(not any(x in reach for x in oks), "ok-after-loop/%d" % i, "Ok only after the batch loop is exhausted", "Ok is reachable without finishing a batch loop", b.where(h))
+
+    def enclosing(bi, src_sig):
+        """(outer loop over the batch, inner loop with the given source) that contain block bi"""
+        o = [l for l in outers if bi in l[1]]
+        i = [l for l in loops if sig(l[3]) == src_sig and bi in l[1]]
+        return (o[0] if o else None), (i[0] if i else None)
+
     CID = "CoinID::new(Transaction::hash_nosigs(%s), (elem(Iterator::enumerate(%s.outputs)).0 as u8))" % (EL, EL)
-    ins = q.call_exprs(b, "CoinMapping::insert_coin")
-    r.check(len(ins) == 1, "outputs/insert", "one insert per output", "%d inserts" % len(ins))
+    ins = [(bi, e) for bi, e in q.call_exprs(b, "CoinMapping::insert_coin")]
+    r.check(len(ins) == 1, "outputs/insert", "one insert site", "%d insert sites" % len(ins))
     for bi, e in ins:
+        o, i = enclosing(bi, "Iterator::enumerate(%s.outputs)" % EL)
+        r.check(o is not None and i is not None, "outputs/in-loops", "inside (all transactions) × (all output indices)", "the insert is not inside the loops over all transactions and all of their outputs", b.where(bi))
         r.check(sig(e[2][1]) == CID, "outputs/id", "id = CoinID::new(txhash, i)", "id = %s" % sig(e[2][1]), b.where(bi))
         r.check(sig(e[2][2]) == "(HashMap::get($3, %s) as Some).0" % CID, "outputs/data", "data = relevant_coins[id]", "data = %s" % sig(e[2][2])[:160], b.where(bi))
         r.check(sig(q.novers(e[2][0])) == "next_state.coins", "outputs/tree", "into next_state.coins", "into %s" % sig(e[2][0]), b.where(bi))
-        if oi:
-            r.check(bi in oi[0][1], "outputs/in-loop", "inside the output loop", "outside the output loop", b.where(bi))
-            # present in relevant_coins ⇒ inserted
-            g = [(gb, ge) for gb, ge in q.call_exprs(b, "HashMap::get") if sig(ge) == "HashMap::get($3, %s)" % CID]
-            if g:
-                f = force(b, {("discr", g[0][1]): 1})
-                wo = f.reach_from(g[0][0], avoid=[bi])
-                r.check(not any(l_ in wo for l_ in oi[0][2]), "outputs/present=>inserted", "a relevant output is always inserted", "a relevant output can be skipped", b.where(bi))
-    rem = q.call_exprs(b, "CoinMapping::remove_coin")
-    r.check(len(rem) == 1, "inputs/remove", "one remove per input", "%d removes" % len(rem))
+        g = [(gb, ge) for gb, ge in q.call_exprs(b, "HashMap::get") if sig(ge) == "HashMap::get($3, %s)" % CID]
+        if g and i is not None:
+            f = force(b, {("discr", g[0][1]): 1})
+            wo = f.reach_from(g[0][0], avoid=[bi])
+            r.check(not any(l_ in wo for l_ in i[2]), "outputs/present=>inserted", "a relevant output is always inserted", "a relevant output can be skipped", b.where(bi))
+        if i is not None:
+            entry = q.loop_entry(b, i[0], i[1])
+            wo = b.reachable(entry, removed=[x[0] for x in g])
+            r.check(not any(l_ in wo for l_ in i[2]), "outputs/every-index", "every output index is looked up", "an output index can be skipped", b.where(bi))
+    rem = [(bi, e) for bi, e in q.call_exprs(b, "CoinMapping::remove_coin")]
+    r.check(len(rem) == 1, "inputs/remove", "one remove site", "%d remove sites" % len(rem))
     for bi, e in rem:
+        o, i = enclosing(bi, "%s.inputs" % EL)
+        r.check(o is not None and i is not None, "inputs/in-loops", "inside (all transactions) × (all inputs)", "the remove is not inside the loops over all transactions and all of their inputs", b.where(bi))
         r.check(sig(e[2][1]) == "elem(%s.inputs)" % EL, "inputs/id", "removes the input", "removes %s" % sig(e[2][1]), b.where(bi))
-        if ii:
-            r.check(bi in ii[0][1], "inputs/in-loop", "inside the input loop", "outside", b.where(bi))
-            entry = q.loop_entry(b, ii[0][0], ii[0][1])
+        r.check(sig(q.novers(e[2][0])) == "next_state.coins", "inputs/tree", "from next_state.coins", "from %s" % sig(e[2][0]), b.where(bi))
+        if i is not None:
+            entry = q.loop_entry(b, i[0], i[1])
             wo = b.reachable(entry, removed=[bi])
-            r.check(not any(l_ in wo for l_ in ii[0][2]), "inputs/every", "every input is removed", "an input can be skipped", b.where(bi))
-    rec = q.call_exprs(b, "TransactionSet::insert")
+            r.check(not any(l_ in wo for l_ in i[2]), "inputs/every", "every input is removed", "an input can be skipped", b.where(bi))
+        if o is not None:
+            entry = q.loop_entry(b, o[0], o[1])
+            ih = [l[0] for l in loops if sig(l[3]) == "%s.inputs" % EL and l[0] in o[1]]
+            wo = b.reachable(entry, removed=ih)
+            r.check(not any(l_ in wo for l_ in o[2]), "inputs/every-tx", "for every transaction", "a transaction's inputs can be skipped", b.where(bi))
+    rec = [(bi, e) for bi, e in q.call_exprs(b, "TransactionSet::insert")]
     r.check(len(rec) == 1 and sig(q.novers(rec[0][1])) == "TransactionSet::insert(next_state.transactions, %s)" % EL, "recorded", "the transaction is recorded", "recording: %s" % [sig(x[1]) for x in rec])
-    if rec:
-        entry = q.loop_entry(b, h, blocks)
-        wo = b.reachable(entry, removed=[rec[0][0]])
-        r.check(not any(l_ in wo for l_ in latches), "recorded/every", "every kept transaction is recorded", "a transaction can be kept without being recorded")
-    # each loop runs once per transaction: all three inner effects inside the outer loop
-    for nm, sites in (("insert", ins), ("remove", rem), ("record", rec)):
-        r.check(all(s_[0] in blocks for s_ in sites), nm + "/in-outer", "%s inside the per-transaction loop" % nm, "%s outside the per-transaction loop" % nm)
+    for bi, e in rec:
+        o = [l for l in outers if bi in l[1]]
+        r.check(bool(o), "recorded/in-loop", "inside a loop over all transactions", "outside the batch loop", b.where(bi))
+        if o:
+            entry = q.loop_entry(b, o[0][0], o[0][1])
+            wo = b.reachable(entry, removed=[bi])
+            r.check(not any(l_ in wo for l_ in o[0][2]), "recorded/every", "every kept transaction is recorded", "a transaction can be kept without being recorded", b.where(bi))
     rr = [e for bb, e in q.result_blocks(b)["Ok"]]
     r.check(len(rr) == 1 and sig(q.novers(dict(rr[0][3])["0"])) == "next_state", "result", "returns the updated state", "returns %s" % [sig(x) for x in rr])
     impl = ctx.body(AP + "apply_tx_batch_impl", r)
